@@ -3,8 +3,15 @@
 Complete product  method (8) x order 2-4 x nf 3-6 x diagonal tower (4) x ordered coupling pairs.
 The oracle is the *other* code path (non_singlet.dispatcher applied to each diagonal entry); no formula
 of mine enters.  Closed-form methods must agree to rounding, the discretised / series methods within
-their own, self-measured, discretisation / truncation error.
+their own, self-measured, discretisation / truncation error; the iterated methods in addition within the
+accuracy of the documented second-order scheme (absolute cap at 120 steps, error ratio 120 vs 60 steps).
+
+Resonant towers (LO entries 0 and k*beta0, k = 1, 2: distinct eigenvalues, hence inside the quantifier):
+singlet.u_vec divides 0 by 0 there; recorded defect `singlet.u_vec/diagonal-resonance/nonfinite`, pinned by a model
+(_matches_known_resonance) so that any other failure on these towers keeps its own signature.
 """
+
+from fractions import Fraction
 
 import numpy as np
 
@@ -16,8 +23,11 @@ TECHNIQUE = "exhaustive lattice; differential comparison of the singlet and non-
 LEVEL_TEXT = (
     "on every point of the finite lattice (8 methods, order 2-4, nf 3-6, 4 diagonal complex towers with distinct "
     "entries, all ordered pairs of the 5-value coupling lattice) the singlet operator is diagonal and its entries "
-    "equal the non-singlet kernel of the corresponding strategy: to 1e-12 for truncated / decompose, within 10x the "
-    "self-estimated discretisation (iterations 30/60/120) or truncation (ev_op_max_order 10/20/40) error otherwise"
+    "equal the non-singlet kernel of the corresponding strategy: to 1e-13 for truncated / decompose, within 10x the "
+    "self-estimated discretisation (iterations 30/60/120) or truncation (ev_op_max_order 10/20/40) error otherwise; the "
+    "iterated kernels are moreover within 1e-3 at 120 steps and converge with second order (error ratio <= 1/3 per halving); "
+    "on the 24 resonant diagonal towers (gamma_0 = diag(0, k beta0), k = 1, 2) every method whose U-matrices do not reach "
+    "U_k agrees likewise, the others are the recorded 0/0 defect of u_vec"
 )
 LEVEL_NOTE = (
     "no independent reference: both sides are eko code (C07/C08 tie the non-singlet side to the ODE); correspondence of "
@@ -26,7 +36,7 @@ LEVEL_NOTE = (
 )
 FLOOR_NONTRIVIAL = 50
 
-TOL_ROUND = 1e-12
+TOL_ROUND = 1e-13  # measured maximum 8.6e-16
 TOL_OFFDIAG = 1e-14
 LA = [0.002, 0.005, 0.0125, 0.03, 0.05]
 LA_THOROUGH = [0.002, 0.003, 0.005, 0.008, 0.0125, 0.02, 0.03, 0.04, 0.05]
@@ -44,8 +54,50 @@ T = [
 ]
 # pairs of scalar towers forming diag(g1_k, g2_k); entries differ at every order
 DIAG = [(0, 1), (2, 3), (4, 5), (1, 2)]
+# resonant diagonal towers: diag(T0, T1) with the LO entries replaced by (0, k * beta0(nf)), i.e. the two
+# eigenvalues of R0 = gamma_0/beta_0 are 0 and k (distinct!).  beta0 = 11 - 2 nf / 3 typed here, not taken from eko.
+RES_K = (1, 2)
+RES_A0 = 0.0125
+ITER_CAP = 1e-3  # absolute cap on the distance iterate <-> non-singlet exact at 120 iterations (measured maximum 7.1e-5)
+ITER_ORDER_RATIO = 1.0 / 3.0  # err(120)/err(60) of a second-order scheme is 1/4, of a first-order one 1/2
+ITER_ORDER_FLOOR = 1e-10  # below this the distance at 120 iterations is rounding dominated
+
+
+def _beta0(nf):
+    return float(Fraction(33 - 2 * nf, 3))
+
+
+def _n_umatrices(mname, o, maxord):
+    """number of U_k (k >= 1) the kernel computes: k = 1 .. this number"""
+    if mname in ("TRUNCATED", "ORDERED_TRUNCATED"):
+        return o - 1
+    if mname.startswith("PERTURBATIVE"):
+        return maxord - 1
+    return 0
 
 DEC = {2: "nlo", 3: "nnlo", 4: "n3lo"}
+
+
+def _matches_known_resonance(s, mname, o, nf, G, k, runs):
+    """Model of the recorded defect (0/0 in singlet.u_vec at r_p - r_m = k on a commuting tower): the kernel computes U_k,
+    u_vec returns finite U_j for j < k and all-NaN U_j for j >= k, and every run of the kernel is an all-NaN 2x2 matrix.
+    Anything else that is non-finite on these towers is a different defect and keeps the generic signature."""
+    from eko import beta
+
+    nu = _n_umatrices(mname, o, MAXORD[-1])
+    if not 1 <= k <= nu:
+        return False
+    if not all(r.shape == (2, 2) and np.all(np.isnan(r.real)) and np.all(np.isnan(r.imag)) for r in runs):
+        return False
+    betalist = [beta.beta_qcd((2 + i, 0), nf) for i in range(o)]
+    mo = o if mname in ("TRUNCATED", "ORDERED_TRUNCATED") else MAXORD[-1]
+    try:
+        with np.errstate(invalid="ignore", divide="ignore"):
+            r = s.r_vec(G.copy(), betalist, (mo, 0), (o, 0), mname == "PERTURBATIVE_EXACT")
+            u = np.array(s.u_vec(r, (mo, 0)))
+    except Exception:  # noqa
+        return False
+    return bool(np.all(np.isfinite(r)) and np.all(np.isfinite(u[:k])) and np.all(np.isnan(u[k:].real)) and np.all(np.isnan(u[k:].imag)))
 
 
 def _kernel_name(mname, o):
@@ -69,9 +121,19 @@ def evaluate(case):
     o = case["order"]
     nf = case["nf"]
     a0 = case["a0"]
-    i1, i2 = DIAG[case["tower"]]
-    g1 = np.array(T[i1][:o], dtype=np.complex128)
-    g2 = np.array(T[i2][:o], dtype=np.complex128)
+    res_k = case.get("res_k")
+    if res_k is None:
+        i1, i2 = DIAG[case["tower"]]
+        g1 = np.array(T[i1][:o], dtype=np.complex128)
+        g2 = np.array(T[i2][:o], dtype=np.complex128)
+        tname = f"diag(T{i1},T{i2})"
+    else:
+        i1, i2 = 0, 1
+        g1 = np.array(T[i1][:o], dtype=np.complex128)
+        g2 = np.array(T[i2][:o], dtype=np.complex128)
+        g1[0] = 0.0
+        g2[0] = res_k * _beta0(nf)
+        tname = f"diag(T0,T1) with LO entries (0, {res_k}*beta0={float(g2[0].real)!r})"
     G = np.zeros((o, 2, 2), dtype=np.complex128)
     G[:, 0, 0] = g1
     G[:, 1, 1] = g2
@@ -87,34 +149,48 @@ def evaluate(case):
         M.PERTURBATIVE_EXPANDED: M.PERTURBATIVE_EXPANDED,
     }
     mx = {"max_dev_rounding_methods": 0.0, "max_dev_rounding_methods_passing": 0.0, "max_offdiag": 0.0, "max_ratio_iterate": 0.0, "max_ratio_perturbative": 0.0,
-          "max_dev_ot_vs_ns_ordered_truncated": 0.0, "max_dev_iterate_expanded_vs_ns_expanded": 0.0}
+          "max_dev_ot_vs_ns_ordered_truncated": 0.0, "max_dev_iterate_expanded_vs_ns_expanded": 0.0,
+          "max_iterate_distance_at_120": 0.0, "max_iterate_err120_over_err60": 0.0}
     npts = 0
+    nres_nan = 0
     for a1 in case["a1s"]:
         if a1 == a0:
             continue
         for meth in M:
             kn = _kernel_name(meth.name, o)
             sig = f"singlet.{kn}/order={o}"
-            where = f"method={meth.name} nf={nf} tower=diag(T{i1},T{i2}) a0={a0} a1={a1}"
+            where = f"method={meth.name} nf={nf} tower={tname} a0={a0} a1={a1}"
+            quiet = "ignore" if res_k is not None else "warn"  # resonant towers: 0/0 inside u_vec is the expected observation
             try:
-                nsv = np.array(
-                    [complex(ns.dispatcher((o, 0), partner[meth], g, a1, a0, nf)) for g in (g1, g2)]
-                )
-                if meth in (M.ITERATE_EXACT, M.ITERATE_EXPANDED):
-                    runs = [s.dispatcher((o, 0), meth, G.copy(), a1, a0, nf, it, (10, 0)) for it in ITERS]
-                elif meth in (M.PERTURBATIVE_EXACT, M.PERTURBATIVE_EXPANDED):
-                    runs = [s.dispatcher((o, 0), meth, G.copy(), a1, a0, nf, 1, (mo, 0)) for mo in MAXORD]
-                    # the number of steps must not matter beyond the same accuracy
-                    extra = np.array(s.dispatcher((o, 0), meth, G.copy(), a1, a0, nf, 4, (MAXORD[-1], 0)), dtype=np.complex128)
-                else:
-                    runs = [s.dispatcher((o, 0), meth, G.copy(), a1, a0, nf, 1, (10, 0))]
-                runs = [np.array(r, dtype=np.complex128) for r in runs]
+                with np.errstate(invalid=quiet, divide=quiet):
+                    nsv = np.array(
+                        [complex(ns.dispatcher((o, 0), partner[meth], g, a1, a0, nf)) for g in (g1, g2)]
+                    )
+                    if meth in (M.ITERATE_EXACT, M.ITERATE_EXPANDED):
+                        runs = [s.dispatcher((o, 0), meth, G.copy(), a1, a0, nf, it, (10, 0)) for it in ITERS]
+                    elif meth in (M.PERTURBATIVE_EXACT, M.PERTURBATIVE_EXPANDED):
+                        runs = [s.dispatcher((o, 0), meth, G.copy(), a1, a0, nf, 1, (mo, 0)) for mo in MAXORD]
+                        # the number of steps must not matter beyond the same accuracy
+                        extra = np.array(s.dispatcher((o, 0), meth, G.copy(), a1, a0, nf, 4, (MAXORD[-1], 0)), dtype=np.complex128)
+                    else:
+                        runs = [s.dispatcher((o, 0), meth, G.copy(), a1, a0, nf, 1, (10, 0))]
+                    runs = [np.array(r, dtype=np.complex128) for r in runs]
             except Exception as ex:  # noqa
                 res.fail(sig + "/raises", f"{type(ex).__name__}: {ex} {where}")
                 continue
             npts += 1
             last = runs[-1]
             if last.shape != (2, 2) or not np.all(np.isfinite(last)):
+                if res_k is not None and np.all(np.isfinite(nsv)) and _matches_known_resonance(s, meth.name, o, nf, G, res_k, runs):
+                    # the documented wrong behaviour at a resonance r_p - r_m = k of a U_k that is computed: 0/0 in u_vec.
+                    # One defect = one signature; anything else that is non-finite keeps the generic signature below.
+                    nres_nan += 1
+                    res.fail(
+                        "singlet.u_vec/diagonal-resonance/nonfinite",
+                        f"{where}: LO eigenvalues of gamma_0/beta_0 differ by exactly k={res_k} (distinct), kernel {kn} computes U_1..U_{_n_umatrices(meth.name, o, MAXORD[-1])}: "
+                        f"singlet={last.tolist()} but non-singlet({partner[meth].name}) on the entries is finite: {nsv.tolist()}",
+                    )
+                    continue
                 res.fail(sig + "/nonfinite", f"{where}: singlet={last.tolist()}")
                 continue
             off = max(abs(r[0, 1]) + 0.0 for r in runs), max(abs(r[1, 0]) for r in runs)
@@ -141,6 +217,22 @@ def evaluate(case):
                     mx[key] = max(mx[key], err_x / bound)
                     if not (err_x <= bound and offx <= TOL_OFFDIAG):
                         res.fail(sig + "/iterations=4", f"{where}: with 4 steps and ev_op_max_order={MAXORD[-1]} distance to non-singlet {err_x:.3e} (bound {bound:.3e}), off-diagonal {offx:.3e}")
+                if meth.name.startswith("ITERATE"):
+                    # 'within their discretisation accuracy': the documented scheme (midpoint rule on a geometric grid) is of
+                    # second order and reaches ~3e-5 at 120 steps on this lattice; a self-calibrated bound alone would accept
+                    # any convergent scheme of any order
+                    mx["max_iterate_distance_at_120"] = max(mx["max_iterate_distance_at_120"], err[-1])
+                    if not err[-1] <= ITER_CAP:
+                        res.fail(sig + "/accuracy-cap", f"{where}: distance to non-singlet({partner[meth].name}) at {ITERS[-1]} iterations {err[-1]:.3e} > {ITER_CAP}")
+                    if err[-1] > ITER_ORDER_FLOOR:
+                        ratio = err[-1] / err[-2]
+                        mx["max_iterate_err120_over_err60"] = max(mx["max_iterate_err120_over_err60"], ratio)
+                        if not ratio <= ITER_ORDER_RATIO:
+                            res.fail(
+                                sig + "/convergence-order",
+                                f"{where}: distance to non-singlet({partner[meth].name}) at {ITERS} iterations = {['%.3e' % e for e in err]}: "
+                                f"halving the step reduces it by {1/ratio:.2f} only (second order: 4)",
+                            )
                 if not err[-1] <= bound:
                     res.fail(
                         sig,
@@ -159,8 +251,9 @@ def evaluate(case):
                     mx["max_dev_iterate_expanded_vs_ns_expanded"], float(np.max(np.abs(diag[-1] - v) / np.abs(v)))
                 )
     mx["points"] = npts
+    mx["resonant_nonfinite"] = nres_nan
     res.info = mx
-    res.outcome = "agree" if not res.fails else "DISAGREE:" + ",".join(sorted({f.signature.split(".")[1] for f in res.fails}))[:150]
+    res.outcome = ("agree" if res_k is None else f"resonant-k={res_k}:agree") if not res.fails else "DISAGREE:" + ",".join(sorted({f.signature.split(".")[1] for f in res.fails}))[:150]
     res.nontrivial = npts > 0
     return res
 
@@ -173,12 +266,16 @@ def run(ctx):
             for t in range(len(DIAG)):
                 for a0 in la:
                     cases.append({"order": o, "nf": nf, "tower": t, "a0": a0, "a1s": la})
+            for k in RES_K:
+                cases.append({"order": o, "nf": nf, "tower": "res", "res_k": k, "a0": RES_A0, "a1s": la})
     results = ctx.run_cases(cases, evaluate)
     ctx.extra.update(points_compared=sum((r[1][3] or {}).get("points", 0) for r in results))
     ctx.rule = (
         f"complete product: 8 methods x order 2-4 x nf 3-6 x 4 diagonal complex towers (entries distinct at every order; one "
         f"with gamma_0 entry 0) x all ordered pairs a0 != a1 of {la}; iterate methods at 30/60/120 iterations, perturbative "
-        "methods at ev_op_max_order 10/20/40 with 1 step and at 40 with 4 steps; a case = (order, nf, tower, a0) with all its a1 and methods; non-trivial = all"
+        "methods at ev_op_max_order 10/20/40 with 1 step and at 40 with 4 steps; a case = (order, nf, tower, a0) with all its a1 and methods; "
+        f"plus resonant towers diag(T0, T1) with LO entries (0, k*beta0(nf)), k in {list(RES_K)}, order 2-4 x nf 3-6 at a0={RES_A0} with every a1 "
+        "of the coupling lattice and all 8 methods; non-trivial = all"
     )
     ctx.assumptions += [
         "correspondence of strategies as documented in DGLAP.rst: singlet ordered-truncated uses the truncated expansion (so it "
@@ -186,6 +283,11 @@ def run(ctx):
         "recorded as max_dev_ot_vs_ns_ordered_truncated, not judged); singlet iterate-expanded is the same discretised exact "
         "solution as iterate-exact (compared with the non-singlet exact kernel; distance to non-singlet 'expanded' recorded only)",
         "'within discretisation/truncation accuracy' := distance to the non-singlet value at the finest setting <= 10 x the "
-        "Richardson self-estimate (change under the last refinement; /3 for the second-order iterate) + 1e-12",
+        f"Richardson self-estimate (change under the last refinement; /3 for the second-order iterate) + {TOL_ROUND}; for the iterated "
+        f"kernels also: distance at 120 iterations <= {ITER_CAP} (measured maximum 7.1e-5) and, where that distance exceeds {ITER_ORDER_FLOOR}, "
+        "distance(120) / distance(60) <= 1/3 (the documented midpoint rule is of second order: measured 0.2501; a first-order scheme gives 1/2)",
+        "resonant diagonal towers are inside the quantifier (their eigenvalues are distinct); the failure of the truncated / perturbative "
+        "kernels there carries the signature singlet.u_vec/diagonal-resonance/nonfinite only if it matches the model: k <= number of "
+        "U-matrices the kernel computes, u_vec finite below U_k and all-NaN from U_k on, kernel output all-NaN, non-singlet values finite",
         "a1 == a0 is left to C10; interpreted mode (NUMBA_DISABLE_JIT=1)",
     ]
